@@ -439,7 +439,8 @@ func checkC16(c *Ctx, r *Report) {
 				}
 				chalKnown := false
 				for _, cd := range conds {
-					if b, ok := cd.V.(*ssa.BinOp); ok && (b.Op == token.NEQ && cd.Truth || b.Op == token.EQL && !cd.Truth) && g5Resolve(b.X, env) == ssa.Value(chal) {
+					// any spelling of "a challenge was received": chal != "", len(chal) != 0, len(chal) > 0, ...
+					if x, empty, ok := emptyCond(cd); ok && !empty && g5Resolve(x, env) == ssa.Value(chal) {
 						chalKnown = true
 					}
 				}
